@@ -24,6 +24,12 @@ for sid in sys.argv[1:]:
             prev.append(json.load(open(m)).get("summary", "")[:420])
         except Exception:  # noqa
             pass
+    WAVE_NOTE = ("STYLE FOR THIS ROUND: earlier seeds were mostly a single changed comparison or constant. Prefer something subtler: "
+                 "a change spread over TWO sites that each look fine alone, a 'refactoring' or 'optimisation' that is wrong only for a "
+                 "rare option combination or input form, state carried over between calls, an error path, or an interaction between "
+                 "two features (e.g. restart + block writes, compression + continuous, several subchannels + complex, reversed listing "
+                 "+ window). It must still be small, realistic and pass the existing suite.\n\n") if sid[3:] >= "e" else ""
+    txt = txt.replace("DELIVERABLES, all inside", WAVE_NOTE + "DELIVERABLES, all inside", 1) if WAVE_NOTE else txt
     if prev:
         div = ("DIVERSITY: other engineers already seeded these changes for the same property — " + "; ".join('"%s"' % s for s in prev) +
                ". Choose a DIFFERENT mechanism in a different function (and preferably a different source file or layer) than those; "
